@@ -22,7 +22,8 @@
 #else
 #define HAVE_SHIM 0
 #endif
-#if (MANIFOLD_PAR == 1) && !HAVE_SHIM
+#if (MANIFOLD_PAR == 1) && !HAVE_SHIM && !defined(VSHIM_THREADED)
+#define HAVE_REAL_TBB 1
 #include <tbb/task_arena.h>
 #endif
 
@@ -245,7 +246,7 @@ void vh_case(vh::Ctx& c) {
     c.count("shim_combinable_slots", (long long)(tbb::vshim::st().combSlots - slots0));
     c.sig(tbb::vshim::st().trace);
     c.maxi("shim_max_workers", tbb::vshim::st().W);
-#elif (MANIFOLD_PAR == 1)
+#elif defined(HAVE_REAL_TBB)
     static const int conc[] = {1, 2, 3, 4, 8, 16};
     int k = conc[(c.idx + s) % 6];
     tbb::task_arena arena(k);
